@@ -200,7 +200,11 @@ def run_c09(shape):
         else:
             st, model = decide(list(r.pc) + [z3.Or(bad)])
             if st == 'unsat': res['discharged'] += 1
-            elif st == 'sat': res['sat'].append(dict(kind='prior-contents-or-idempotence'))
+            elif st == 'sat':
+                # natively checkable witness: keyframes, abstract position (realised as a concrete timing + time) and the
+                # LAST start value; the two prior targets of the replay differ in every field
+                record_sat(res, r.pc, z3.Or(bad), diverse_values(vals, api.fields, [(v, ty) for v, (n, ty) in zip(ovv2, api.target_fields)]) + nice_positions(pos, ap.p),
+                           pos + [x for row in vals for x in row] + ovv2 + [ap.p, ap.tag, ap.rep, ap.rev], model)
             else: res['problems'].append('solver unknown')
         if res['sample'] is None:
             res['sample'] = 'update twice + clone + start_with x2: timeline value unchanged; result terms independent of prior target'
